@@ -5,10 +5,12 @@ mod gen;
 mod kinops;
 mod props_kin;
 mod props_misc;
+mod props_coll;
+mod props_plan;
 
 fn main() {
     // panics inside the library are outcomes; keep stderr quiet
-    std::panic::set_hook(Box::new(|_| {}));
+    if std::env::var("VERIF_PANIC_MSG").is_err() { std::panic::set_hook(Box::new(|_| {})); }
     let a: Vec<String> = std::env::args().collect();
     if a.len() < 5 || a[1] != "gen" {
         eprintln!("usage: harness gen <Cxx> <seed> <n>");
@@ -31,6 +33,10 @@ fn main() {
         "C18" => props_misc::c18(seed, n),
         "C17" => props_misc::c17(seed, n),
         "C15" => props_misc::c15(seed, n),
+        "C10" => props_coll::c10(seed, n),
+        "C14" => props_coll::c14(seed, n),
+        "C11" => props_coll::c11(seed, n),
+        "C13" => props_plan::c13(seed, n),
         "consts" => props_kin::consts(),
         _ => { eprintln!("unknown property {}", prop); std::process::exit(2); }
     }
